@@ -20,7 +20,7 @@ pub struct Ltwh {
     pub conf: f32,
 }
 
-fn ltwh_case() -> impl Strategy<Value = Ltwh> {
+pub fn ltwh_case() -> impl Strategy<Value = Ltwh> {
     (cmax_class(), log_uniform(1e-2, 1e4), log_uniform(1e-2, 1e4), 0.0f32..=1.0)
         .prop_flat_map(|(cm, w, h, conf)| (-cm..cm, -cm..cm).prop_map(move |(l, t)| Ltwh { l, t, w, h, conf }))
 }
@@ -73,7 +73,7 @@ pub struct PolyCase {
     pub b: UB,
 }
 
-fn poly_case() -> impl Strategy<Value = PolyCase> {
+pub fn poly_case() -> impl Strategy<Value = PolyCase> {
     (cmax_class(), angle_any(), log_uniform(1e-2, 1e4), log_uniform(1e-2, 1e4))
         .prop_flat_map(|(cm, ang, w, h)| (-cm..cm, -cm..cm).prop_map(move |(x, y)| PolyCase { b: UB::new(x, y, ang, w / h, h) }))
 }
@@ -140,7 +140,7 @@ pub struct EqCase {
     pub angle_none: bool,
 }
 
-fn eq_case() -> impl Strategy<Value = EqCase> {
+pub fn eq_case() -> impl Strategy<Value = EqCase> {
     let delta = prop_oneof![
         4 => (0.1f32..0.89).prop_map(|k| k * EPS),
         4 => (1.11f32..100.0).prop_map(|k| k * EPS),
@@ -210,7 +210,7 @@ pub struct EqMulti {
     pub deltas: [f32; 5],
 }
 
-fn eq_multi() -> impl Strategy<Value = EqMulti> {
+pub fn eq_multi() -> impl Strategy<Value = EqMulti> {
     let d = || prop_oneof![
         3 => Just(0.0f32),
         3 => ((0.1f32..0.89), any::<bool>()).prop_map(|(k, n)| if n { -k * EPS } else { k * EPS }),
@@ -259,7 +259,7 @@ pub struct AngleCase {
     pub a: f32,
 }
 
-fn angle_case() -> impl Strategy<Value = AngleCase> {
+pub fn angle_case() -> impl Strategy<Value = AngleCase> {
     prop_oneof![
         4 => (-1000.0f32..1000.0),
         3 => (-20.0f32..20.0),
@@ -315,7 +315,7 @@ pub fn check_edited(c: &EditedBox) -> CaseResult {
     Ok(CaseOk::new(generated_before && c.edits.len() >= 2).label_if(generated_before, "vertices_generated_before_edit"))
 }
 
-fn edited_case() -> impl Strategy<Value = EditedBox> {
+pub fn edited_case() -> impl Strategy<Value = EditedBox> {
     use crate::props::c08::BoxEdit;
     let edit = prop_oneof![
         3 => Just(BoxEdit::GenVertices),
